@@ -35,6 +35,12 @@ DEFECTS = [
     ("if-trailing-text", "#if 1 1\n#endif", "syntax", "top"),
     ("elif-undefined-identifier", "#if 0\n#elif NOPE8\n#endif", "syntax", "top-second-line"),
     ("too-many-args", "f(1, 2, 3);", "syntax", "body"),
+    # errors of the #include directive itself (raised by the preprocessor with the line of the directive)
+    ("include-missing-file", '#include "nofile9.h"', "syntax", "top"),
+    ("include-missing-file-angle", "#include <nofile8.h>", "syntax", "top"),
+    ("include-no-delimiter", "#include nofile7", "syntax", "top"),
+    ("include-unclosed", '#include "nofile6', "syntax", "top"),
+    ("include-no-name", "#include", "syntax", "top"),
     # errors raised by the code generator (the position travels through syntax_error / compiler_error)
     ("codegen-multiply", "v0 = v0 * v0;", "syntax", "body"),
     ("codegen-break", "break;", "syntax", "body"),
@@ -170,6 +176,6 @@ def run(chk):
     h.close(); m.close()
     return chk.finish(level="proof", obligations=obligations, trusted_base=TRUSTED,
                       checker_cmd="cd /verif/lean && lake build CV.Props.C06 && lake env lean .lake/audit/C06_audit.lean",
-                      extra={"rule": "random preprocessor sources with includes for the mapping tie; 10 defect kinds planted after 0-9 line-shifting constructs "
+                      extra={"rule": "random preprocessor sources with includes for the mapping tie; 22 defect kinds planted after 0-9 line-shifting constructs "
                                      "(multi-line comments, splices, skipped regions, #define lines, blank lines), 40% inside an included file, 30% of the "
                                      "statement defects spliced over two physical lines"})
